@@ -22,6 +22,20 @@ def split_infra(chk):
     chk.problems = keep
 
 
+def disown(chk, prefix, owner):
+    """Differences whose class key starts with `prefix` belong to another property's check (which plays the same scripts and
+    reports them): here they are a note."""
+    keep, moved = [], {}
+    for key, case, source in chk.problems:
+        if key.startswith(prefix):
+            moved[key] = moved.get(key, 0) + 1
+        else:
+            keep.append((key, case, source))
+    chk.problems = keep
+    if moved:
+        chk.notes.append("establishment: differences owned by %s (not this property): %s" % (owner, ", ".join(sorted(moved))))
+
+
 def classify(r):
     """Name (never judge) a record TraceSetup rejected: the harness wrote the class of its observation into `key`."""
     return r.get("key") or "trace:unclassified"
